@@ -103,7 +103,7 @@ PLANS["C05"] = dict(
     assumptions=["priority of a shift = highest priority among the productions shifting that terminal in the state (10 for Accept), as documented", "LR algorithm combined with the RN table type is not judged (undocumented combination)",
                  "cells with >= 3 candidates only get the weak check (resolution order among them is not documented)",
                  "operator grammars: associativity is a property of a priority level and is written in one place per level (production, terminal or both); with no associativity anywhere prefer_shifts makes operators right-associative"],
-    floor=dict(quick=25, thorough=40),
+    floor=dict(quick=12, thorough=40),
 )
 PLANS["C06"] = dict(
     jobs=sharded("c06", "C06", 640, 9600, max_s_quick=90, max_s_thorough=1200), replay=replay_with("c06", "C06"),
@@ -656,7 +656,7 @@ PLANS["C17"] = dict(
          "non-trivial = distinct (grammar, option vector) for which a parser was written",
     assumptions=["rcomp is built from /repo's working tree without the verif feature", "`--lexical-disamb-grammar-order=false` is only combined with GLR (the library refuses it for LR by panicking; that is outside C17)",
                  "-f is always passed so that actions are regenerated"],
-    floor=dict(quick=100, thorough=800),
+    floor=dict(quick=30, thorough=400),
 )
 PLANS["C18"] = dict(
     jobs=sharded("c18", "C18", 1600, 24000, max_s_quick=90, max_s_thorough=1200), replay=replay_with("c18", "C18"),
